@@ -723,6 +723,34 @@ func main() {
 			it.name, strings.Join(names, "; "), it.name, strings.Join(parts, "; "), it.name)
 	}
 	fmt.Fprintf(&b, "(* shape of Attacker.Stop: 1 once-guarded flag, 2 select/default, 0 unknown *)\nDefinition stop_shape : Z := %d.\n", shape)
+	// writers of the per-attack sequence counter: every statement of lib/attack.go that assigns to,
+	// increments / decrements, or takes the address of a field called like the counter incremented in
+	// hit's critical section (".seq"), other than that one increment
+	writers := 0
+	isSeq := func(e ast.Expr) bool {
+		sel, ok := e.(*ast.SelectorExpr)
+		return ok && sel.Sel.Name == "seq"
+	}
+	ast.Inspect(attack, func(n ast.Node) bool {
+		switch x := n.(type) {
+		case *ast.AssignStmt:
+			for _, l := range x.Lhs {
+				if isSeq(l) {
+					writers++
+				}
+			}
+		case *ast.IncDecStmt:
+			if isSeq(x.X) {
+				writers++
+			}
+		case *ast.UnaryExpr:
+			if x.Op == token.AND && isSeq(x.X) {
+				writers++
+			}
+		}
+		return true
+	})
+	fmt.Fprintf(&b, "(* statements of lib/attack.go that write a field named like the sequence counter (one is hit's increment) *)\nDefinition seq_writers : Z := %d.\n", writers)
 	if *out == "" {
 		fmt.Print(b.String())
 		return
